@@ -4,6 +4,8 @@ C19 — the error-set generators: `make_error_list` (general theorem, all `n`, `
 -/
 import NumqiProofs.QecAsym
 import NumqiProofs.QecFloatCeil
+import NumqiProofs.QecParse
+import NumqiProofs.QecDense
 
 namespace Numqi.C19
 open Numqi Numqi.Qec
@@ -91,6 +93,39 @@ theorem asymmetric_set_float_spec (n d wBits : Nat) (hw : 0 < ratOfFloatBits wBi
 `ceil(3/0.3) = 10`, the exact value of `3/0.3` is `10.000000000000000370…`, ceiling 11 -/
 example : fceilDiv 3 4599075939470750515 = 10
     ∧ ratCeil (3 / ratOfFloatBits 4599075939470750515) = 11 := by decide +kernel
+
+/-- **`make_error_list(n, d, tag_full=True)`** (model `errorListFull` + `denseEntry`, C08's Kronecker-factor matrix of the
+string): the dense matrices are exactly the matrices `C08.mat` of the Pauli operators of weight `1..d-1`, each once
+(any ring with `I² = -1`, `1 ≠ -1`; all `n`, `d`). -/
+theorem errorListFull_every_matrix_once {R : Type} [CommRing R] {I : R} (hI : I * I = -1) (h2 : (1 : R) ≠ -1) (n d : Nat) :
+    (∀ M ∈ (errorListFull n d).map (denseMat I n), ∃ s : List Nat, s.length = n ∧ (∀ x ∈ s, x < 4) ∧ 1 ≤ symWeight s
+        ∧ symWeight s < d ∧ M = C08.mat I (Pauli.ofStr n s 0))
+    ∧ (∀ s : List Nat, s.length = n → (∀ x ∈ s, x < 4) → 1 ≤ symWeight s → symWeight s < d →
+        C08.mat I (Pauli.ofStr n s 0) ∈ (errorListFull n d).map (denseMat I n))
+    ∧ ((errorListFull n d).map (denseMat I n)).Nodup :=
+  errorListFull_spec hI h2 n d
+
+/-- **`parse_simple_pauli`, full-word form**: a word over I/X/Y/Z never trips the assertion; the parsed tokens are its
+non-identity letters with their positions; they denote the operator of the word (`tag_circuit=True` circuit = `MP.ofSyms`),
+and the `tag_circuit=False` table lookup succeeds. -/
+theorem parse_simple_pauli_full_form (l : List Nat) (h4 : ∀ x ∈ l, x < 4) :
+    ∃ toks, parseSimplePauli (l.map symLetter) = some toks
+      ∧ toks = (((List.range l.length).zip l).filter fun qs => qs.2 != 0)
+      ∧ MP.ofSparse (pauliTokensCircuit toks) = MP.ofSyms l
+      ∧ pauliTokensTable toks = some toks :=
+  parse_full_word l h4
+
+/-- **`parse_simple_pauli`, indexed form round trip**: any non-empty sequence of tokens letter+digits (multi-digit,
+leading zeros allowed) written out as `X0Y12…` parses to exactly those (index, symbol) pairs. -/
+theorem parse_simple_pauli_indexed_roundtrip (toks : List (Nat × List Char)) (hne : toks ≠ [])
+    (hs : ∀ t ∈ toks, t.1 < 4) (hd : ∀ t ∈ toks, t.2 ≠ [] ∧ ∀ c ∈ t.2, isDigitC c = true) :
+    parseSimplePauli (renderTokens toks) = some (toks.map fun t => (natOfDigits t.2, t.1)) :=
+  parse_indexed_roundtrip toks hne hs hd
+
+/-- the two forms of the same operator: `XIY` and `X0Y2` -/
+example : parseSimplePauli "XIY".toList = some [(0, 1), (2, 2)] ∧ parseSimplePauli "X0Y2".toList = some [(0, 1), (2, 2)]
+    ∧ parseSimplePauli "X0I1Y02".toList = some [(0, 1), (1, 0), (2, 2)]
+    ∧ pauliTokensTable [(0, 1), (1, 0), (2, 2)] = none ∧ parseSimplePauli "X0Y".toList = none := by decide
 
 /-- the case that was wrong before b728c8a: one qubit, distance 2 — X and Y are generated -/
 example : (asymErrorSet 1 2 1 1).map (sparseToSyms 1) = [[3], [2], [1]] := by decide
